@@ -1,16 +1,20 @@
 (* C06 -- names and in-scope namespaces: the element's namespace range denotes
    Spec.scope_of (own declarations, then inherited bindings not re-declared); names resolve to the
    first binding of their prefix; duplicate declarations are detected; the 2^16 limit.
-   Statements pinned here; proofs in Proofs/ScopeProofs.v.  (scopes_refine carries the hypothesis
-   that the parent's scope has unique prefixes, which scope_prefixes_unique re-establishes.) *)
-From Coq Require Import List NArith Bool.
+   (scopes_refine carries the hypothesis that the parent's scope has unique prefixes, which
+   scope_prefixes_unique re-establishes.)
+   Statements are pinned here (copied verbatim from the proof files by tools/pin_props.py);
+   each is re-proved by `exact` and followed by Print Assumptions. *)
+From Coq Require Import Ascii String.
+From Coq Require Import List NArith Bool PeanoNat Sorted.
 Import ListNotations.
 From RX Require Import Generated.
-From RX.Model Require Import Base Stream Tokenizer Doc Builder.
+From RX.Model Require Import Base CharClass Stream Tokenizer Doc Builder Parse Api.
 From RX.Spec Require Scope.
 From RX.Proofs Require Import ScopeProofs.
 Open Scope N_scope.
 
+(* ---- Proofs/ScopeProofs.v ---- *)
 Theorem C06_scopes_refine :
   forall text c r c' pnd pns own inherited,
   ns_ok (c_doc c) ->
